@@ -48,7 +48,7 @@ impl Property for C02 {
         "corpus chunks / generated programs, re-laid out, under a random configuration; oracle: fmt(fmt(x)) == fmt(x) byte for byte and the second run reports no error; judged only when the first run reports no error; non-trivial = first run changed the text and some output line is within 3 columns of max_width; distinct by case content"
     }
     fn enum_len(&self, g: &GenCtx) -> usize {
-        grid_len(g, 60_000, usize::MAX)
+        grid_len(g, 150_000, usize::MAX)
     }
     fn enum_case(&self, g: &GenCtx, i: usize) -> Option<Value> {
         let n = self.enum_len(g);
